@@ -201,6 +201,13 @@ func init() {
 				}
 				return
 			}
+			// failures during a request write: the k-th write of an n-byte request fails
+			for _, n := range []int{1, 504, 505, 1008, 1500, 4000} {
+				total := (n + 503) / 504
+				for k := 1; k <= total+1; k++ {
+					emit(Case{Line: fmt.Sprintf("wf %d %d", n, k), Kind: "write-failure"})
+				}
+			}
 			// C14: every byte offset × failure kinds. EOF inside a packet costs the 1 s read timeout:
 			// in the quick tier every offset is tried with reset and hang, EOF at the packet boundaries
 			// and at a sample of inner offsets.
@@ -222,6 +229,21 @@ func init() {
 		}
 	}
 	oracle := func(line, out string) string {
+		if strings.HasPrefix(line, "wf ") {
+			f := strings.Fields(line)
+			n, _ := strconv.Atoi(f[1])
+			k, _ := strconv.Atoi(f[2])
+			total := (n + 503) / 504
+			switch {
+			case strings.Contains(out, "panic") || strings.Contains(out, "blocked"):
+				return "a failing request write neither crashes nor blocks the caller"
+			case k <= total && out != fmt.Sprintf("send=err packets=%d", k-1):
+				return "a failing request write is reported as an error and nothing is written after it"
+			case k > total && out != fmt.Sprintf("send=ok packets=%d", total):
+				return "a request whose writes all succeed is sent completely"
+			}
+			return ""
+		}
 		want := rdExpect(line)
 		if out == want {
 			return ""
@@ -245,11 +267,17 @@ func init() {
 	for _, id := range []string{"C02rd", "C14"} {
 		id := id
 		p := &Prop{
-			ID: id, Gen: gen(strings.TrimSuffix(id, "rd")), Impl: rdImpl, Oracle: oracle,
+			ID: id, Gen: gen(strings.TrimSuffix(id, "rd")), Oracle: oracle,
+			Impl: func(line string) string {
+				if strings.HasPrefix(line, "wf ") {
+					return wfImpl(line)
+				}
+				return rdImpl(line)
+			},
 			FindingKey: func(line, out, clause string) string { return clause },
-			Nontrivial: func(line, out string) bool { return strings.Contains(line, ",") },
+			Nontrivial: func(line, out string) bool { return strings.Contains(line, ",") || strings.HasPrefix(line, "wf ") },
 			NoShrink:   true, Timeout: 20 * time.Second, Timed: true,
-			Rule: "the real reader goroutine over the in-memory transport: streams of 1..3 packets (bodies of 1..5 DONE packages, header-only packets) cut at every byte offset and ended by reset / hang (every offset) or EOF (packet boundaries and sampled inner offsets in the quick tier, every offset in the thorough tier; an EOF inside a packet surfaces after the 1 s read timeout), with read schedules that split headers and bodies. Non-trivial = more than one packet",
+			Rule: "the real reader goroutine over the in-memory transport: streams of 1..3 packets (bodies of 1..5 DONE packages, header-only packets) cut at every byte offset and ended by reset / hang (every offset) or EOF (packet boundaries and sampled inner offsets in the quick tier, every offset in the thorough tier; an EOF inside a packet surfaces after the 1 s read timeout), with read schedules that split headers and bodies; failures during a request write: requests of 1..8 packets whose k-th transport write fails, for every k. Non-trivial = more than one packet",
 			Assumptions: []string{"net.Conn read semantics: n > 0 ⇒ err = nil; a zero-length read returns (0, nil)", "PacketReadTimeout = 1 s in the harness"},
 		}
 		register(p)
@@ -352,4 +380,57 @@ func rdrawGen(tier string, rng *rand.Rand, emit func(Case)) {
 		}
 		emit(Case{Line: fmt.Sprintf("rdraw %s %s %s", fin, scheds[rng.Intn(len(scheds))], hx(s)), Kind: "packet-random"})
 	}
+}
+
+// wfImpl: `wf <n> <k>` — a request of n bytes (⌈n/504⌉ packets at packet size 512) whose k-th transport
+// write fails: SendPackage must report an error (never block, never panic) and nothing is written after
+// the failure. Answer: `send=<ok|err|blocked|panic> packets=<complete packets on the wire>`.
+func wfImpl(line string) (out string) {
+	defer func() {
+		if r := recover(); r != nil {
+			out = "panic"
+		}
+	}()
+	f := strings.Fields(line)
+	if len(f) != 3 {
+		return "bad-op"
+	}
+	n, _ := strconv.Atoi(f[1])
+	k, _ := strconv.Atoi(f[2])
+	mc := newMemConn()
+	mc.failWriteAt = k
+	conn, _ := tds.VerifNewConn(context.Background(), mc, testInfo(), false)
+	defer conn.VerifCancel()
+	ch := conn.VerifNewChannel(0)
+	pkg := tds.NewTokenlessPackage()
+	pkg.Data.Write(genBytes(n, 9))
+	res := make(chan string, 1)
+	go func() {
+		defer func() {
+			if r := recover(); r != nil {
+				res <- "panic"
+			}
+		}()
+		if err := ch.SendPackage(context.Background(), pkg); err != nil {
+			res <- "err"
+		} else {
+			res <- "ok"
+		}
+	}()
+	r := "blocked"
+	select {
+	case r = <-res:
+	case <-time.After(1500 * time.Millisecond):
+	}
+	w := mc.written()
+	pk := 0
+	for len(w) >= 8 {
+		l := int(w[2])<<8 | int(w[3])
+		if l < 8 || l > len(w) {
+			break
+		}
+		pk++
+		w = w[l:]
+	}
+	return fmt.Sprintf("send=%s packets=%d", r, pk)
 }
